@@ -10,12 +10,13 @@ Open Scope N_scope.
 Definition rle := list (N * N).
 Definition unrle (r : rle) : list byte := flat_map (fun p => repeat (snd p) (N.to_nat (fst p))) r.
 
-Inductive hopN := HW (r : rle) | HL | HA (r : rle) | HWL | HF | HP.
+Inductive hopN := HW (r : rle) | HL | HA (r : rle) | HWL | HF | HP | HM (ulen : N) (r : rle).
 Inductive scriptN := SC (inl : list hopN) (handoff : bool) (main : list hopN) (ok : bool).
 Definition hop_of (h : hopN) : hop :=
   match h with
   | HW r => HWrite (unrle r) | HL => HLease | HA r => HAppend (unrle r)
   | HWL => HWriteLease | HF => HFlushStaged | HP => HPanic
+  | HM u r => HWriteMsg (N.to_nat u) (unrle r)
   end.
 Definition script_of_n (s : scriptN) : hscript :=
   match s with SC i h m o => mkScript (map hop_of i) h (map hop_of m) o end.
@@ -141,6 +142,7 @@ Fixpoint written_by (cur : list byte) (l : list hop) : list (list byte) :=
   match l with
   | [] => []
   | HWrite bs :: r => bs :: written_by cur r
+  | HWriteMsg _ bs :: r => bs :: written_by cur r
   | HLease :: r => written_by [] r
   | HAppend bs :: r => written_by (cur ++ bs) r
   | HWriteLease :: r => cur :: written_by cur r
@@ -154,6 +156,7 @@ Fixpoint placed_by (off : nat) (l : list hop) : list (nat * list byte) :=
   match l with
   | [] => []
   | HWrite bs :: r => (O, bs) :: placed_by off r
+  | HWriteMsg _ bs :: r => (O, bs) :: placed_by off r
   | HLease :: r => placed_by O r
   | HAppend bs :: r => (off, bs) :: placed_by (off + length bs) r
   | _ :: r => placed_by off r
